@@ -9,7 +9,9 @@ open Gossamer Gossamer.C04
    reloads to exactly the in-memory state, GetFromDB = in-memory Get) demands something else,
    TAB `spec=<demanded observables>`, and TAB `kf=child-tries-equal-content` if two child tries of
    one trie had the same root hash at some point of the run (child_storage.go keys `childTries` by
-   root hash, so such tries share one map entry: a finding of the child-storage properties). -/
+   root hash, so such tries share one map entry: a finding of the child-storage properties), or
+   `kf=stored-trie-mutated` if a trie was written through its handle while the dot/state cache of
+   tries held that object (second run). -/
 def step (line : String) : String :=
   let ops := parseLine line
   let r := run Blake2b.hash256 ops
@@ -17,6 +19,7 @@ def step (line : String) : String :=
   let s := C02.joinWith ";" (r.map (·.2))
   if m == s then m
   else m ++ "\tspec=" ++ s ++
-    (if runAliased Blake2b.hash256 St.init ops then "\tkf=child-tries-equal-content" else "")
+    (if runAliased Blake2b.hash256 St.init ops then "\tkf=child-tries-equal-content"
+     else if runStale Blake2b.hash256 St.init ops then "\tkf=stored-trie-mutated" else "")
 
 def main : IO Unit := runDriver step
